@@ -48,10 +48,10 @@ K_FLAG = "kernel_dg.py:check_for_loopcarried_dep:while-else-sets-timed_out-witho
 K_STEP = "kernel_dg.py:check_for_loopcarried_dep:sequential-search-step-without-yield-unbounded"
 SEQ_DRIVER = os.path.join(vlib.VERIF, "harness", "c19_seq.py")
 STEP_US = 500000        # us: the longest admissible distance of two clock readings of the sequential search ("one step")
-OVERHEAD = 4.0          # s: manager start, forks, last 0.2 s sleep, kills, joins
+OVERHEAD = 5.0          # s: manager start, forks, last 0.2 s sleep, kills, joins
 TPCP_REF = {}
 KILL_SLACK = 2.0        # s: the parent may notice the passed deadline one 0.2 s poll late (plus scheduling noise)
-PER_PATH = 0.0006       # s per delivered path: list(ListProxy) is one round trip per element
+PER_PATH = 0.001        # s per delivered path: list(ListProxy) is one round trip per element
 
 
 # ------------------------------------------------------------------ kernels
